@@ -42,7 +42,11 @@ func (g *generator) generateParallel(
 		return err
 	}
 
-	if _, err := io.WriteString(w, "func() (err error) {\n"); err != nil {
+	// User-provided expressions are evaluated in an outer closure that
+	// declares no identifiers of its own, so that names in those expressions
+	// (e.g. an "err" variable of the enclosing function) keep referring to
+	// the user's variables rather than to the named result below.
+	if _, err := io.WriteString(w, "func() error {\n"); err != nil {
 		return err
 	}
 
@@ -56,6 +60,9 @@ func (g *generator) generateParallel(
 	if err := prologueTmpl.ExecuteTemplate(w, _paramExprTmpl, paramExprs(exprs)); err != nil {
 		return err
 	}
+	if _, err := io.WriteString(w, "return func() (err error) {\n"); err != nil {
+		return err
+	}
 	if _, err := w.Write(b.Bytes()); err != nil {
 		return err
 	}
@@ -64,7 +71,7 @@ func (g *generator) generateParallel(
 	endPos := g.fset.Position(p.End())
 	// -1 because this is a line above the closing }().
 	fmt.Fprintf(w, "/*line %v:%d*/", filepath.Base(p.PosInfo.File), endPos.Line-1)
-	if _, err := io.WriteString(w, "}()"); err != nil {
+	if _, err := io.WriteString(w, "}()\n}()"); err != nil {
 		return err
 	}
 
